@@ -1441,6 +1441,20 @@ class Interp(object):
         return self.builtin_assoc(head, last, a, hint, generics)
 
     def builtin_assoc(self, head, last, a, hint, generics=None):
+        if head == 'iter' and last == 'once':
+            return Iter([a[0]])
+        if head == 'iter' and last == 'empty':
+            return Iter([])
+        if head == 'iter' and last == 'repeat':
+            raise Unanalysable('iter::repeat is unbounded')
+        if head in ('cmp', 'std') and last in ('min', 'max'):
+            x, y = a[0], a[1]
+            kx, ky = self.ordkey(x), self.ordkey(y)
+            return (x if kx <= ky else y) if last == 'min' else (y if ky >= kx else x)
+        if head == 'mem' and last == 'swap':
+            raise Unanalysable('mem::swap needs place semantics')
+        if head == 'mem' and last in ('take', 'replace'):
+            raise Unanalysable('mem::%s needs place semantics' % last)
         if head in ('Box', 'Arc', 'Rc') and last == 'new':
             return a[0]
         if head in ('Mutex', 'RwLock') and last == 'new':
